@@ -41,6 +41,10 @@ pub struct Ctx {
     pub case_no: u64,
     pub budget_s: f64,
     /// sampled boundary events for the offline Python re-judgement (pyref)
+    /// a record every key type that reads its scheme accepts: re-decoded after other inputs were judged, to see
+    /// state an earlier call may have left behind on the thread
+    pub canary: Option<Vec<u8>>,
+    pub canary_tick: u64,
     pub pytrace: Vec<Value>,
     pub pytrace_caps: BTreeMap<String, u32>,
 }
@@ -77,6 +81,8 @@ impl Ctx {
             only_case: None,
             case_no: 0,
             budget_s,
+            canary: None,
+            canary_tick: 0,
             pytrace: Vec::new(),
             pytrace_caps: BTreeMap::new(),
         }
